@@ -1,7 +1,7 @@
 (** C15 — List commands implement a sequence. *)
 From stdpp Require Import gmap strings.
 From EV Require Import Base.Str Model.Value Model.Keyspace Model.Reply Model.Prog Model.CmdList Model.Dispatch.
-From EV Require Import Spec.SpecList Proofs.KeyspaceLemmas Proofs.ListPure Proofs.ListProofs.
+From EV Require Import Spec.SpecList Proofs.KeyspaceLemmas Proofs.ListPure Proofs.ListProofs Proofs.DispatchLemmas.
 Local Open Scope Z_scope.
 
 (** For every finite sequence of argument vectors (any command word, any arity, any bytes), from
@@ -55,8 +55,10 @@ Theorem C15_dispatch : forall w c argv h,
   exec_cmd w 0 argv =
   (let '(s', r) := exec_list (conn_db w 0) argv (w_st w) in (World s' (w_conns w), r)).
 Proof.
-  intros w c argv h Hargv Hh. unfold exec_cmd, exec_list. rewrite Hargv.
-  unfold handler_of, first_some. cbn [fold_right]. rewrite Hh. by destruct (run_seq _ _ _).
+  intros w c argv h Hargv Hh.
+  assert (Hho : handler_of (lower c) = Some h) by (rewrite handler_of_unfold, Hh; done).
+  destruct argv as [|c0 rest]; [discriminate|]. injection Hargv as ->.
+  rewrite (exec_cmd_runs_handler w 0 (c :: rest) c h eq_refl Hho). unfold exec_list. by rewrite Hh.
 Qed.
 Print Assumptions C15_dispatch.
 
